@@ -18,6 +18,12 @@ isolated nodes, singleton edges, multi-edges):
   k must carry the value given for ITS id; per-ID dicts are built in shuffled order (and, for edge arguments, over all
   edge IDs).  ``hull=True``: one hull per qualifying edge, enclosing every member position and nothing away from
   them.  ``pos=None``: the markers define the positions, the lines / polygons must join exactly those.
+
+Round-2 families (see ``ctx.rule``): documented argument shapes (tuple / range / Series sequences, the colour ``"none"``,
+``node_ec`` per ID, an EdgeStat over all edges, per-ID edge arguments of a complex, RandomState seeds), ``pos`` with extra
+keys, instances of trivial subclasses, tuple labels / edge IDs, one large network per run (predicate only) and HELD-OBJECT
+cases (call, edit, call again on the same object; compared with a fresh rebuild).  A call that raises is classed by the
+exception and by the documented shapes present in the case (``cause_suffix``).
 """
 import glob
 import inspect
@@ -67,11 +73,24 @@ def enc_real(H):
             "edges": [[enc_id(e), [enc_id(x) for x in H.edges.members(e)]] for e in H.edges]}
 
 
-def build(cls, enc):
+class MyH(xgi.Hypergraph):
+    """a trivial subclass: an instance IS a hypergraph"""
+
+
+class MyS(xgi.SimplicialComplex):
+    """a trivial subclass: an instance IS a simplicial complex"""
+
+
+def net_of(c):
+    """the real network of a case (an instance of a trivial subclass when the case says so)"""
+    return build(c["cls"], c["H"], subclass=bool(c.get("subclass")))
+
+
+def build(cls, enc, subclass=False):
     """rebuild the real network of a case: same node order, edge order, edge IDs (public API only)"""
     nodes = [dec_id(n) for n in enc["nodes"]]
     if cls == "sc":
-        S = xgi.SimplicialComplex()
+        S = (MyS if subclass else xgi.SimplicialComplex)()
         S.add_nodes_from(nodes)
         d = {dec_id(e): [dec_id(x) for x in ms] for e, ms in enc["edges"]}
         if d:
@@ -79,7 +98,7 @@ def build(cls, enc):
                 warnings.simplefilter("ignore")
                 S.add_simplices_from(d)  # dict format: explicit IDs, all faces are listed
         return S
-    H = xgi.Hypergraph()
+    H = (MyH if subclass else xgi.Hypergraph)()
     H.add_nodes_from(nodes)
     for e, ms in enc["edges"]:
         H.add_edge([dec_id(x) for x in ms], idx=dec_id(e))
@@ -105,6 +124,10 @@ SPECIAL = [
     ("sc", ["a", "b", "c"], [(0, ["a", "b", "c"])]),
     ("sc", [0, "a", 1, "b", 2, "c", 3, "d"], [(0, [0, "a"]), (1, ["b", 1, "c"]), (2, [2, "d", 3, "a"]), (3, ["c", 3])]),
     ("sc", [7, 8, 9, 10], [(0, [7, 8]), (1, [8, 9]), (2, [7, 9])]),
+    # tuple node labels and tuple edge IDs (encoded as JSON lists by core.enc_id)
+    ("hg", [(0, 0), (0, 1), (1, 1), "a", 3, (2,)], [((0, 1), [(0, 0), (0, 1)]), ((1, 2), [(0, 1), (1, 1), "a"]), (5, [(1, 1), 3]),
+                                                      ((7, "x"), [(0, 0), (2,), 3, "a"])]),
+    ("sc", [(0, 0), (0, 1), (1, 1), (2, 2), 4], [(0, [(0, 0), (0, 1), (1, 1)]), (1, [(1, 1), (2, 2)])]),
 ]
 
 
@@ -145,7 +168,7 @@ def grid_pos(rng, nodes, collisions=False):
 def pos_dict(c):
     kind = c.get("pos_kind", "array")
     out = {}
-    for k, (x, y) in c["pos"]:
+    for k, (x, y) in list(c["pos"]) + list(c.get("extra_pos", [])):   # extra_pos: positions of IDs that are not nodes (a parent's layout)
         out[dec_id(k)] = (np.array([x, y], dtype=float) if kind == "array" else (x, y) if kind == "tuple" else [x, y])
     return out
 
@@ -225,7 +248,7 @@ NODE_ARGS = ["node_size", "node_fc", "node_lw", "node_ec"]
 DYAD_ARGS = ["dyad_color", "dyad_lw"]
 EDGE_ARGS = ["edge_fc", "edge_ec"]
 COLOUR_ARGS = ("node_fc", "node_ec", "dyad_color", "edge_fc", "edge_ec")
-KINDS = ["scalar", "dict", "list", "array", "stat", "dictnum"]
+KINDS = ["scalar", "dict", "list", "array", "stat", "dictnum", "tuple", "range", "series", "none", "statall"]
 FLAGS = ("rescale_sizes", "dyad_style", "alpha", "node_shape")
 RESCALE = {"node_size": (5, 30), "node_lw": (0, 5), "dyad_lw": (1, 10)}   # documented defaults of `params`
 ZERO_OK = ("node_size", "node_lw", "dyad_lw")    # scalar sizes / widths for which 0 is a legitimate value
@@ -276,13 +299,20 @@ def style_raw(c, arg):
     """the value the statement gives to each drawn element, in view order (None: one scalar for all)"""
     kind = c["style"][arg]
     ids = element_ids(c, arg)
-    if kind == "scalar":
+    if kind in ("scalar", "none"):
         return None
+    if c["cls"] == "sc" and not arg.startswith("node") and kind in ("dict", "dictnum"):
+        return None   # keyed by the complex's own simplex IDs: judged by sc_per_id_fails
     if kind in ("dict", "dictnum"):
         D = {json.dumps(k): v for k, v in dict_items(c, arg)}
         return [D[json.dumps(i)] for i in ids]
-    if kind == "list":
+    if kind in ("list", "tuple", "series"):
         return [col_val(k) if arg in COLOUR_ARGS else num_val(k) for k in range(len(ids))]
+    if kind == "range":
+        return [5 + k for k in range(len(ids))]
+    if kind == "statall":   # an EdgeStat over ALL edges (attribute "w"): each drawn edge has the value stored under its own ID
+        W = {json.dumps(e): w for e, w in c["edge_w"]}
+        return [W[json.dumps(i)] for i in ids]
     if kind == "array":
         return [num_val(k) for k in range(len(ids))]
     if kind == "stat":
@@ -299,8 +329,20 @@ def style_value(arg, kind, H, c):
         return {"node_size": 11, "node_lw": 2, "dyad_lw": 3}.get(arg, "tab:blue" if colour else 2)
     if kind in ("dict", "dictnum"):
         return {dec_id(k): v for k, v in dict_items(c, arg)}
+    if kind == "none":
+        return "none"    # matplotlib's name for "no colour": a single colour given as a string
     if kind == "list":
         return list(style_raw(c, arg))
+    if kind == "tuple":
+        return tuple(style_raw(c, arg))
+    if kind == "range":
+        return range(5, 5 + len(element_ids(c, arg)))
+    if kind == "series":
+        import pandas as pd
+        return pd.Series(style_raw(c, arg))
+    if kind == "statall":
+        H.set_edge_attributes({dec_id(e): w for e, w in c["edge_w"]}, name="w")
+        return H.edges.attrs("w")
     if kind == "array":
         return np.array(style_raw(c, arg), dtype=float)
     if kind == "stat":
@@ -432,7 +474,7 @@ def read_styles(c, nc, dc, ec):
         return [[round(float(v), 6) for v in row[:3]] for row in np.atleast_2d(np.asarray(x, dtype=float))] if len(x) else []
     out = {}
     for a, kind in c.get("style", {}).items():
-        if a in FLAGS or a == "edge_lw" or kind == "scalar":
+        if a in FLAGS or a == "edge_lw" or kind in ("scalar", "none"):
             continue
         coll = nc if a.startswith("node") else dc if a.startswith("dyad") else ec
         if coll is None:
@@ -486,12 +528,12 @@ def style_fails(c, r, drawn=None, count=False):
     fails = []
     got_all = r.get("styles", {})
     for arg, kind in c.get("style", {}).items():
-        if arg not in got_all or kind == "scalar":
+        if arg not in got_all or kind in ("scalar", "none"):
             continue
         if c["cls"] == "sc" and not arg.startswith("node"):
-            continue  # the drawn edges of a complex are an internal hypergraph: order and ids are not public
-        if arg == "edge_ec" and kind == "stat":
-            continue  # mapped to colours by hand inside draw_hyperedges (ScalarMappable): not read back
+            continue  # drawn in an order that is not public: per-ID dicts are judged by sc_per_id_fails, the rest by success
+        if arg in ("edge_ec", "node_ec") and kind == "stat":
+            continue  # mapped to colours by hand (ScalarMappable): not read back
         if drawn is not None and arg not in drawn:
             continue
         raw = style_raw(c, arg)
@@ -525,14 +567,44 @@ def style_fails(c, r, drawn=None, count=False):
     return fails
 
 
+def sc_per_id_fails(c, r):
+    """per-ID dicts for the lines / polygons of a COMPLEX, keyed by the complex's own simplex IDs: the element drawn at the
+    positions of simplex e must carry the value stored under e (the drawing order is not public: elements are identified by
+    their distinct positions)"""
+    if c["cls"] != "sc" or c.get("auto_pos"):
+        return []
+    P = posmap(c)
+    by_pts = {json.dumps(sorted(P[json.dumps(x)] for x in ms)): e for e, ms in c["H"]["edges"]}
+    fails = []
+    for arg, kind in c.get("style", {}).items():
+        if arg.startswith("node") or kind not in ("dict", "dictnum") or arg not in r.get("styles", {}):
+            continue
+        D = {json.dumps(k): v for k, v in dict_items(c, arg)}
+        els = [sorted(s[:2]) for s in r["segments"]] if arg.startswith("dyad") else [sorted(p) for p in r["polygons"]]
+        ids = [by_pts.get(json.dumps(el)) for el in els]
+        if any(i is None or json.dumps(i) not in D for i in ids):
+            continue   # a plan failure (reported by plan_fails), not a style failure
+        raw = [D[json.dumps(i)] for i in ids]
+        try:
+            k_, want = render(c, arg, raw)
+        except (ValueError, TypeError):
+            continue
+        READ_BACK[f"read-back:sc:{arg}:{kind}"] += 1
+        if not held_equals(k_, want, r["styles"][arg], len(raw)):
+            fails.append(("per-id-style-wrong-element", arg,
+                          f"{arg} (dict keyed by the simplex IDs of the complex): the elements drawn for simplices {ids} were given {raw}; "
+                          f"held {r['styles'][arg]}"))
+    return fails
+
+
 # ----------------------------------------------------------------------------- running the implementation
 
 def exc_name(ex):
     return type(ex).__name__
 
 
-def impl_draw(c):
-    H = build(c["cls"], c["H"])
+def impl_draw(c, H=None):
+    H = net_of(c) if H is None else H
     pos = None if c.get("auto_pos") else pos_dict(c)
     kw = style_kwargs(c, H)
     if c.get("hull"):
@@ -620,6 +692,8 @@ def layout_option_variants(rng, name):
     opts = {}
     if "seed" in params and rng.random() < 0.7:
         opts["seed"] = rng.randint(0, 10 ** 6)
+        if "RandomState" in (getattr(L, name).__doc__ or "") and rng.random() < 0.3:
+            opts["seed"] = {"$randomstate": opts["seed"] % 1000}   # documented: "seed : int, RandomState instance or None"
     if "return_phantom_graph" in params and rng.random() < 0.5:
         opts["return_phantom_graph"] = True
     if "center" in params and rng.random() < 0.4:
@@ -637,13 +711,21 @@ def layout_option_variants(rng, name):
     return opts
 
 
-def impl_layout(c):
-    H = build(c["cls"], c["H"])
+def layout_opts(c):
+    """the keyword arguments of a layout case; {"$randomstate": n} stands for np.random.RandomState(n)"""
+    opts = dict(c.get("opts", {}))
+    if isinstance(opts.get("seed"), dict):
+        opts["seed"] = np.random.RandomState(opts["seed"]["$randomstate"])
+    return opts
+
+
+def impl_layout(c, H=None):
+    H = net_of(c) if H is None else H
     f = getattr(L, c["fn"])
     try:
         with warnings.catch_warnings():
             warnings.simplefilter("ignore")
-            res = f(H, **c.get("opts", {}))
+            res = f(H, **layout_opts(c))
     except Exception as ex:  # noqa
         return {"out": "err:" + exc_name(ex), "msg": str(ex)[:200]}
     G = None
@@ -680,8 +762,8 @@ def impl_layout(c):
     return r
 
 
-def impl_edge_positions(c):
-    H = build(c["cls"], c["H"])
+def impl_edge_positions(c, H=None):
+    H = net_of(c) if H is None else H
     try:
         with warnings.catch_warnings():
             warnings.simplefilter("ignore")
@@ -695,8 +777,8 @@ def impl_edge_positions(c):
     return {"out": "ok", "pos": out}
 
 
-def impl(c):
-    return {"draw": impl_draw, "layout_keys": impl_layout, "edge_positions": impl_edge_positions}[c["f"]](c)
+def impl(c, H=None):
+    return {"draw": impl_draw, "layout_keys": impl_layout, "edge_positions": impl_edge_positions}[c["f"]](c, H)
 
 
 # ----------------------------------------------------------------------------- the property predicate
@@ -803,11 +885,33 @@ def auto_pos_fails(c, r):
     return fails
 
 
+def cause_suffix(c):
+    """a call that raises is classed by the exception AND by the documented input shapes present in the case (read from the
+    case itself, so that it survives shrinking): one failure class per root cause"""
+    tags = set()
+    for a, k in c.get("style", {}).items():
+        if k in ("tuple", "range", "series"):
+            tags.add("sequence-argument")
+        elif k == "none":
+            tags.add("colour-none")
+        elif k == "statall":
+            tags.add("stat-over-all-edges")
+        elif a == "node_ec" and k in ("dict", "dictnum", "stat"):
+            tags.add("node_ec-per-id")
+        elif c["cls"] == "sc" and a in DYAD_ARGS + EDGE_ARGS and k in ("dict", "dictnum", "stat"):
+            tags.add("complex-per-id-edge-style")
+    if c.get("subclass"):
+        tags.add("subclass-instance")
+    if isinstance(c.get("opts", {}).get("seed"), dict):
+        tags.add("randomstate-seed")
+    return "".join(":" + t for t in sorted(tags))
+
+
 def pred(c, r):
     fails = []
     if c["f"] == "draw":
         if r["out"] != "ok":
-            return [("draw-raised:" + r["out"][4:], f"{c['which']} raised {r['out'][4:]}: {r.get('msg')}")]
+            return [("draw-raised:" + r["out"][4:] + cause_suffix(c), f"{c['which']} raised {r['out'][4:]}: {r.get('msg')}")]
         want_coll = {"draw": 3, "draw_nodes": 1}.get(c["which"], 2)
         if r["ncoll"] != want_coll or not r["attached"] or not r.get("same_ax", True):
             fails.append(("collections", f"{r['ncoll']} collections on the axis (expected {want_coll}), returned ones attached: {r['attached']}, "
@@ -817,10 +921,11 @@ def pred(c, r):
         else:
             fails += plan_fails(c, r, expected_plan(c))
         fails += [(k, d) for k, _, d in style_fails(c, r, count=True)]
+        fails += [(k, d) for k, _, d in sc_per_id_fails(c, r)]
         return fails
     if c["f"] == "layout_keys":
         if r["out"] != "ok":
-            return [("layout-raised:" + r["out"][4:], f"{c['fn']}({c['cls']}) raised {r['out'][4:]}: {r.get('msg')}")]
+            return [("layout-raised:" + r["out"][4:] + cause_suffix(c), f"{c['fn']}({c['cls']}) raised {r['out'][4:]}: {r.get('msg')}")]
         if r["shape"] != "dict":
             return [("layout-return-shape", r["shape"])]
         nodes = c["H"]["nodes"]
@@ -1002,7 +1107,263 @@ def draw_case(rng, cls, enc, which=None, hull=None, no_ax=None, auto_pos=None):
             c["label_kw"] = True  # with font_size_* / font_color_* keywords for the label function
     if no_ax if no_ax is not None else rng.random() < 0.2:
         c["no_ax"] = True       # ax=None: the current axes (the default of every draw function)
+    if not c.get("auto_pos") and rng.random() < 0.15:
+        # the layout of a larger (parent) network: positions also for IDs that are not nodes of the drawn network
+        have = {json.dumps(n) for n in enc["nodes"]}
+        extra = [k for k in ("zz-not-a-node", 10 ** 6 + 1, [9, 9], -77) if json.dumps(k) not in have]
+        c["extra_pos"] = [[k, [rng.randint(-9, 9), rng.randint(-9, 9)]] for k in rng.sample(extra, rng.randint(1, len(extra)))]
     return c
+
+
+# documented shapes of the style arguments beyond scalar / list / ndarray / dict / stat-of-the-drawn-elements.  Each case of
+# this family carries exactly ONE such argument (and rescale_sizes=False), so that a failure names its cause.
+NUMERIC_ARGS = ("node_size", "node_lw", "dyad_lw")
+
+
+def exotic_options(c, n_nodes, n_dy, n_po):
+    """(arg, kind) pairs admissible for the case"""
+    which, cls = c["which"], c["cls"]
+    out = []
+    counts = {}
+    if which in ("draw", "draw_nodes"):
+        counts.update({a: n_nodes for a in NODE_ARGS})
+    if which != "draw_nodes":
+        counts.update({"dyad_color": n_dy, "dyad_lw": n_dy, "edge_fc": n_po, "edge_ec": n_po})
+    for a, n in counts.items():
+        if a in COLOUR_ARGS:
+            out.append((a, "none"))
+        if n >= 1:
+            out += [(a, "tuple"), (a, "series")] + ([(a, "range")] if a in NUMERIC_ARGS else [])
+    if which == "draw":
+        out += [("node_ec", "dict"), ("node_ec", "stat")]      # documented in draw() only
+    if cls == "hg" and which != "draw_nodes" and n_dy >= 1:
+        out += [("dyad_lw", "statall")] * 3
+    if cls == "sc" and which != "draw_nodes":
+        # per-ID / stat-valued edge arguments of a complex, keyed by the complex's own simplex IDs
+        out += [(a, "dict") for a in ("edge_fc", "dyad_color", "dyad_lw")] * 2 + [("edge_fc", "stat"), ("dyad_color", "stat")]
+    return out
+
+
+def string_edge_ids(enc):
+    return {"nodes": enc["nodes"], "edges": [[f"f{k}", ms] for k, (_, ms) in enumerate(enc["edges"])]}
+
+
+def exotic_case(rng, cls, enc, which=None, pick=None):
+    if which is None:
+        which = rng.choice(["draw", "draw", "draw_nodes", "draw_hyperedges" if cls == "hg" else "draw_simplices"])
+    c = {"f": "draw", "which": which, "cls": cls, "H": enc, "pos": grid_pos(rng, enc["nodes"]),
+         "pos_kind": rng.choice(["array", "tuple", "list"]), "max_order": None, "style": {}}
+    if cls == "hg" and which != "draw_nodes":
+        c["perm"] = [int(i) for i in np.argsort([len(ms) for _, ms in poly_edges(c)])]
+        n_dy, n_po = len(dyad_edges(c)), len(poly_edges(c))
+    elif cls == "sc":
+        d, m = sc_expected(c)
+        n_dy, n_po = len(d), len(m)
+    else:
+        n_dy = n_po = 0
+    opts = exotic_options(c, len(enc["nodes"]), n_dy, n_po)
+    if pick is not None:
+        opts = [o for o in opts if o == tuple(pick)] or opts
+    arg, kind = rng.choice(opts)
+    c["style"] = {arg: kind, "rescale_sizes": False}
+    c["exotic"] = f"{arg}:{kind}"
+    if kind == "statall":
+        c["edge_w"] = [[e, num_val(k + 2)] for k, (e, _) in enumerate(enc["edges"])]
+    if kind == "dict":
+        colour = arg in COLOUR_ARGS
+        if arg.startswith("node"):
+            items = [[n, col_val(k)] for k, n in enumerate(enc["nodes"])]
+        else:   # a complex: one entry per simplex, keyed by the simplex IDs
+            items = [[e, col_val(k) if colour else num_val(k)] for k, (e, _) in enumerate(enc["edges"])]
+        rng.shuffle(items)
+        c["dicts"] = [[arg, items]]
+    return c
+
+
+# ----------------------------------------------------------------------------- held objects: state across calls
+
+def canon_net(enc):
+    return [[json.dumps(n) for n in enc["nodes"]], [[json.dumps(e), sorted(json.dumps(x) for x in ms)] for e, ms in enc["edges"]]]
+
+
+def apply_edits(H, cls, edits):
+    for op in edits:
+        k = op[0]
+        if k == "remove_node":
+            H.remove_node(dec_id(op[1]))
+        elif k == "add_node":
+            H.add_node(dec_id(op[1]))
+        elif k == "remove_edge":
+            (H.remove_simplex_id if cls == "sc" else H.remove_edge)(dec_id(op[1]))
+        elif k == "add_edge":
+            if cls == "sc":
+                H.add_simplex([dec_id(x) for x in op[1]])
+            else:
+                H.add_edge([dec_id(x) for x in op[1]], idx=dec_id(op[2]))
+        else:
+            raise KeyError(k)
+
+
+def gen_edits(rng, cls, enc, preserving):
+    """JSON edit scripts (public mutators only).  preserving: the node count and (hypergraph) the edge count are the same
+    afterwards although the node SET / edge SET changed — remove a node and add an edge bringing a new node; remove an edge
+    and add another one"""
+    nodes = list(enc["nodes"])
+    used = {json.dumps(x) for _, ms in enc["edges"] for x in ms}
+    new_n, new_e = "new", "new-edge"
+    edits = []
+    if cls == "hg":
+        victim = rng.choice(nodes)
+        rest = [n for n in nodes if json.dumps(n) != json.dumps(victim)]
+        if preserving:
+            edits.append(["remove_node", victim])
+            edits.append(["add_edge", [rng.choice(rest), new_n] if rest else [new_n, "new2"], new_e])
+            if enc["edges"] and rng.random() < 0.6:
+                e0 = rng.choice(enc["edges"])[0]
+                edits.append(["remove_edge", e0])
+                edits.append(["add_edge", rng.sample(rest + [new_n], min(len(rest) + 1, rng.randint(2, 3))), "new-edge-2"])
+        else:
+            kind = rng.choice(["add", "remove_node", "remove_edge", "grow"])
+            if kind == "add":
+                edits.append(["add_edge", [rng.choice(nodes), new_n, "new2"], new_e])
+            elif kind == "remove_node":
+                edits.append(["remove_node", victim])
+            elif kind == "remove_edge" and enc["edges"]:
+                edits.append(["remove_edge", rng.choice(enc["edges"])[0]])
+            else:
+                edits += [["add_node", new_n], ["add_edge", [rng.choice(nodes), new_n], new_e]]
+    else:
+        iso = [n for n in nodes if json.dumps(n) not in used]
+        if preserving and iso:
+            edits.append(["remove_node", rng.choice(iso)])      # an isolated node: the complex stays closed
+            edits.append(["add_edge", [rng.choice([n for n in nodes if json.dumps(n) in used] or nodes), new_n]])
+        else:
+            kind = rng.choice(["add", "remove_edge", "grow"])
+            maximal = [e for e, ms in enc["edges"] if not any(set(map(json.dumps, ms)) < set(map(json.dumps, m2)) for _, m2 in enc["edges"])]
+            if kind == "remove_edge" and len(maximal) > 1:
+                edits.append(["remove_edge", rng.choice(maximal)])
+            elif kind == "add":
+                edits.append(["add_edge", [rng.choice(nodes), new_n, "new2"]])
+            else:
+                edits += [["add_node", new_n], ["add_edge", [rng.choice(nodes), new_n]]]
+    return edits
+
+
+def held_case(rng, cls, enc, names, preserving):
+    """one network OBJECT: a call, an edit, then two more calls on the same object (same options, other options).  Each of
+    the later results must satisfy the predicate of a fresh rebuild of the edited network."""
+    for _ in range(20):
+        edits = gen_edits(rng, cls, enc, preserving)
+        H = build(cls, enc)
+        try:
+            with warnings.catch_warnings():
+                warnings.simplefilter("ignore")
+                apply_edits(H, cls, edits)
+        except Exception:  # noqa
+            continue
+        enc2 = enc_real(H)
+        if edits and has_big_edge(enc2):
+            break
+    else:
+        return None
+    if rng.random() < 0.65:
+        which = rng.choice(["draw", "draw", "draw_nodes", "draw_hyperedges" if cls == "hg" else "draw_simplices"])
+        auto = rng.random() < 0.6
+        plain = lambda e: dict(draw_case(rng, cls, e, which=which, hull=False, auto_pos=auto, no_ax=False), style={}, max_order=None, labels=False)  # noqa
+        first = plain(enc)
+        same = plain(enc2)
+        for c_ in (first, same):
+            c_.pop("dicts", None), c_.pop("zero_scalars", None), c_.pop("label_kw", None)
+            if "perm" in c_:
+                c_["perm"] = [int(i) for i in np.argsort([len(ms) for _, ms in poly_edges(c_)])]
+        other = draw_case(rng, cls, enc2, hull=False, auto_pos=(not auto if rng.random() < 0.5 else auto))
+    else:
+        fn = rng.choice([n for n in names if "kamada" not in n] or names)
+        opts = layout_option_variants(rng, fn)
+        first, same = [dict(layout_cases(rng, cls, e, [fn])[0], opts=opts) for e in (enc, enc2)]
+        other = layout_cases(rng, cls, enc2, [rng.choice([n for n in names if "kamada" not in n] or names)])[0]
+    return {"f": "held", "cls": cls, "H": enc, "edits": edits, "preserving": bool(preserving), "first": first, "seconds": [same, other]}
+
+
+def impl_held(c):
+    """-> list of (second case, result on the held object, result on a fresh rebuild) | {"out": ...}"""
+    H = net_of(c)
+    first = dict(c["first"], H=c["H"], cls=c["cls"])
+    impl(first, H)
+    try:
+        with warnings.catch_warnings():
+            warnings.simplefilter("ignore")
+            apply_edits(H, c["cls"], c["edits"])
+    except Exception as ex:  # noqa
+        return {"out": "edit-raised:" + exc_name(ex)}       # the mutators are the subject of C01-C05
+    out = []
+    for second in c["seconds"]:
+        if canon_net(enc_real(H)) != canon_net(second["H"]):
+            return {"out": "edit-differs"}                  # the edited network is not the recorded one: C01-C05 again
+        out.append((second, impl(second, H), impl(second)))
+    return {"out": "ok", "runs": out}
+
+
+def held_report(ctx, c):
+    res = impl_held(c)
+    ctx.evaluations += 1 + 2 * len(c["seconds"])
+    ctx.stats["held:" + ("preserving" if c.get("preserving") else "ordinary") + ":" + c["first"]["f"]] += 1
+    if res["out"] != "ok":
+        ctx.stats["held:" + res["out"]] += 1
+        return
+    for i, (second, r_held, r_fresh) in enumerate(res["runs"]):
+        fresh = pred(second, r_fresh)
+        fresh_classes = {k for k, _ in fresh}
+        if not fresh and r_held.get("out") == "ok":
+            ctx.nontrivial.add(json.dumps([c, i], sort_keys=True, default=repr))
+        for k, d in fresh:
+            ctx.violation(site_of(second), k, second, detail=d)
+        for k, d in pred(second, r_held):
+            if k not in fresh_classes:
+                ctx.violation(site_of(second), "held-object-" + k, c,
+                              detail=f"call {i + 2} on the SAME network object after the edit {c['edits']} "
+                                     f"({'same' if i == 0 else 'other'} options as call 1); a fresh rebuild of the edited network passes: {d}")
+
+
+# ----------------------------------------------------------------------------- regime: one large network per run
+
+def big_net(rng, cls):
+    """>= 70 nodes incl. the neighbouring integers 2**53, 2**53 + 1 (equal as floats) and strings; for a hypergraph >= 130
+    parallel two-node edges between one pair plus larger edges, singletons and isolated nodes"""
+    nodes = list(range(58)) + [2 ** 53, 2 ** 53 + 1] + [f"s{i}" for i in range(12)]
+    rng.shuffle(nodes)
+    edges = []
+    if cls == "hg":
+        edges += [(i, [2 ** 53, 2 ** 53 + 1]) for i in range(135)]
+        for i in range(14):
+            edges.append((200 + i, rng.sample(nodes[:50], rng.randint(2, 6))))
+        edges += [(300, [nodes[0]]), ("big-str-id", [2 ** 53 + 1, nodes[1], "s0"])]
+        H = xgi.Hypergraph()
+        H.add_nodes_from(nodes)
+        for e, ms in edges:
+            H.add_edge(ms, idx=e)
+        return enc_real(H)
+    S = xgi.SimplicialComplex()
+    S.add_nodes_from(nodes)
+    S.add_simplex([2 ** 53, 2 ** 53 + 1, "s0"])
+    for i in range(30):
+        S.add_simplex(rng.sample(nodes[:60], rng.randint(2, 4)))
+    return enc_real(S)
+
+
+def regime_cases(rng, names, quick=True):
+    out = []
+    for cls in ("hg", "sc"):
+        enc = big_net(rng, cls)
+        out += layout_cases(rng, cls, enc, names, skip=("kamada_kawai",) if quick else ())
+        out.append(draw_case(rng, cls, enc, which="draw", hull=False, auto_pos=False))
+        out.append(draw_case(rng, cls, enc, which="draw", hull=False, auto_pos=True))
+        out.append(draw_case(rng, cls, enc, which="draw_hyperedges" if cls == "hg" else "draw_simplices", hull=False, auto_pos=False))
+        out.append(edgepos_case(rng, cls, enc))
+    for c in out:
+        c["regime"] = "large"      # decided by the predicate only (the Lean driver's closure test is exponential in the simplex size)
+        c.pop("labels", None), c.pop("label_kw", None)
+    return out
 
 
 def layout_cases(rng, cls, enc, names, skip=()):
@@ -1049,6 +1410,8 @@ def _fix(c):
     if "dicts" in c:
         c["dicts"] = [[a, [p for p in items if json.dumps(p[0]) in (keep if a.startswith("node") else keep_e)]] for a, items in c["dicts"]
                       if a in c.get("style", {})]
+    if "edge_w" in c:
+        c["edge_w"] = [p for p in c["edge_w"] if json.dumps(p[0]) in keep_e]
     return c
 
 
@@ -1057,9 +1420,10 @@ def shrink(c, cls_, budget=160):
     changed = True
     while changed and budget > 0:
         changed = False
-        for k in list(c.get("style", {})) + list(c.get("opts", {})) + [f for f in ("zero_scalars", "label_kw", "labels", "hull", "no_ax", "auto_pos") if c.get(f)]:
+        FL = ("zero_scalars", "label_kw", "labels", "hull", "no_ax", "auto_pos", "extra_pos", "subclass")
+        for k in list(c.get("style", {})) + list(c.get("opts", {})) + [f for f in FL if c.get(f)]:
             cand = json.loads(json.dumps(c))
-            (cand.get("style", {}).pop(k, None), cand.get("opts", {}).pop(k, None), cand.pop(k, None) if k in ("zero_scalars", "label_kw", "labels", "hull", "no_ax", "auto_pos") else None)
+            (cand.get("style", {}).pop(k, None), cand.get("opts", {}).pop(k, None), cand.pop(k, None) if k in FL else None)
             if cand["f"] == "draw":
                 cand = _fix(cand)
             budget -= 1
@@ -1125,7 +1489,7 @@ def corpus_cases():
                 out += j if isinstance(j, list) else [j]
         except Exception:  # noqa
             pass
-    return [c for c in out if isinstance(c, dict) and c.get("f") in ("draw", "layout_keys", "edge_positions")]
+    return [c for c in out if isinstance(c, dict) and c.get("f") in ("draw", "layout_keys", "edge_positions", "held")]
 
 
 def run_cases(ctx, cases):
@@ -1135,7 +1499,14 @@ def run_cases(ctx, cases):
         for cls_, detail in pred(c, r):
             ctx.violation(site_of(c), cls_, c, detail=detail)
         return []
+    held = [c for c in cases if c["f"] == "held"]
+    cases = [c for c in cases if c["f"] != "held"]
     for c in cases:
+        for flag in ("subclass", "extra_pos", "regime", "exotic"):
+            if c.get(flag):
+                ctx.stats[f"{flag}:{c['cls']}" if flag != "exotic" else f"exotic:{c['exotic']}:{c['cls']}"] += 1
+        if isinstance(c.get("opts", {}).get("seed"), dict):
+            ctx.stats["layout:seed=RandomState"] += 1
         if c["f"] == "draw":
             ctx.stats[f"draw:{c['which']}:{c['cls']}"] += 1
             ctx.stats[f"max_order:{c['max_order']}"] += 1
@@ -1153,16 +1524,23 @@ def run_cases(ctx, cases):
                     ctx.stats["dict:all-edges"] += 1
         elif c["f"] == "layout_keys":
             ctx.stats[f"layout:{c['fn']}:{c['cls']}"] += 1
-        kinds = {type(n).__name__ for n in c["H"]["nodes"]}
+        kinds = {"tuple" if isinstance(n, list) else type(n).__name__ for n in c["H"]["nodes"]}
         ctx.stats["labels:" + ("mixed" if len(kinds) > 1 else next(iter(kinds), "none"))] += 1
-    known = [c for c in cases if c["f"] != "layout_keys" or c.get("family")]
-    unknown = [c for c in cases if c["f"] == "layout_keys" and not c.get("family")]
-    dis = run_fn(ctx, "C20", known, impl, pred=p, compare=compare, name="C20", nontrivial=nontrivial)
-    for c in unknown:  # layout functions the model has no family for: predicate only
+        if any(isinstance(e, list) for e, _ in c["H"]["edges"]):
+            ctx.stats["edge-ids:tuple"] += 1
+    pred_only = lambda c: (c["f"] == "layout_keys" and not c.get("family")) or bool(c.get("regime"))  # noqa
+    known = [c for c in cases if not pred_only(c)]
+    unknown = [c for c in cases if pred_only(c)]
+    dis = run_fn(ctx, "C20", known, impl, pred=p, compare=compare, name="C20", nontrivial=nontrivial) if known else []
+    for c in unknown:  # layout functions the model has no family for, and the large networks: predicate only
         r = impl(c)
         ctx.evaluations += 1
-        ctx.stats["fn:layout-unmodelled:" + c["fn"]] += 1
+        ctx.stats["fn:predicate-only:" + (c.get("fn") or c.get("which") or c["f"])] += 1
+        if nontrivial(c, r):
+            ctx.nontrivial.add(json.dumps([c.get("fn") or c.get("which"), c["cls"], c.get("regime"), r.get("out")]))
         p(c, r)
+    for c in held:
+        held_report(ctx, c)
     return dis
 
 
@@ -1185,7 +1563,7 @@ def replay(ctx, path):
     return finish(ctx, trusted_base=TRUSTED)
 
 
-def make_cases(ctx, rng, n_nets, names, draws_per_net=3):
+def make_cases(ctx, rng, n_nets, names, draws_per_net=3, extras=True):
     cases = []
     nets = []
     for cls, nodes, edges in SPECIAL:
@@ -1217,6 +1595,64 @@ def make_cases(ctx, rng, n_nets, names, draws_per_net=3):
         # Kamada-Kawai (an L-BFGS minimisation, ~10x the cost of the others) on every third network in the quick tier
         cases += layout_cases(rng, cls, enc, names, skip=("kamada_kawai",) if ctx.quick and i % 3 and i < len(lay) - 2 else ())
     ctx.stats["networks"] += len(nets) + len(lay)
+    if not extras:
+        return cases
+    # CLASS variants: instances of trivial subclasses of Hypergraph / SimplicialComplex
+    for i, (cls, enc) in enumerate(nets[:len(SPECIAL)]):
+        if ctx.quick and i % 2:
+            continue
+        sub = [draw_case(rng, cls, enc, hull=False), draw_case(rng, cls, enc, which="draw", hull=False, auto_pos=True),
+               draw_case(rng, cls, enc, which="draw_nodes", auto_pos=(i % 2 == 0)),
+               draw_case(rng, cls, enc, which="draw_hyperedges" if cls == "hg" else "draw_simplices", hull=False, auto_pos=False)]
+        sub += layout_cases(rng, cls, enc, names, skip=("kamada_kawai",) if ctx.quick and i % 6 else ())
+        sub.append(edgepos_case(rng, cls, enc))
+        for c in sub:
+            c["subclass"] = True
+            c.pop("extra_pos", None)                      # one unusual feature per case: a failure names its cause
+            if isinstance(c.get("opts", {}).get("seed"), dict):
+                c["opts"]["seed"] = c["opts"]["seed"]["$randomstate"]
+        cases += sub
+    # CONTAINER / documented argument shapes: every admissible (argument, shape) on four hand-picked networks, random ones elsewhere
+    for i, (cls, enc) in enumerate(nets[:len(SPECIAL) + ctx.n(25, 400)]):
+        if cls == "sc" and i % 2 == 0:
+            enc = string_edge_ids(enc)    # simplex IDs that are not 0..k-1 (the internal IDs draw_simplices works with)
+        if i in (1, 4, 5, 6):
+            for which in ("draw", "draw_nodes", "draw_hyperedges" if cls == "hg" else "draw_simplices"):
+                probe = exotic_case(rng, cls, enc, which=which)
+                if cls == "hg" and which != "draw_nodes":
+                    n_dy, n_po = len(dyad_edges(probe)), len(poly_edges(probe))
+                elif cls == "sc":
+                    n_dy, n_po = map(len, sc_expected(probe))
+                else:
+                    n_dy = n_po = 0
+                for o in sorted(set(exotic_options(probe, len(enc["nodes"]), n_dy, n_po))):
+                    cases.append(exotic_case(rng, cls, enc, which=which, pick=o))
+        else:
+            cases += [exotic_case(rng, cls, enc) for _ in range(2)]
+    # RandomState seeds for every layout that documents them, on two hand-picked networks
+    for cls, enc in (nets[1], nets[5]):
+        for name in names:
+            if "RandomState" in (getattr(L, name).__doc__ or ""):
+                c = layout_cases(rng, cls, enc, [name])[0]
+                c["opts"] = dict(c["opts"], seed={"$randomstate": rng.randint(0, 999)})
+                cases.append(c)
+    # HELD OBJECT: call, edit, call again on the same object
+    n_held = 0
+    for i, (cls, enc) in enumerate(nets):
+        if i >= len(SPECIAL) + ctx.n(22, 300):
+            break
+        if cls == "sc" and not any(json.dumps(n) not in {json.dumps(x) for _, ms in enc["edges"] for x in ms} for n in enc["nodes"]):
+            S = build(cls, enc)
+            S.add_node("isolated-extra")    # so that a count-preserving edit of the complex exists
+            enc = enc_real(S)
+        for preserving in (True, False):
+            h = held_case(rng, cls, enc, names, preserving)
+            if h:
+                cases.append(h)
+                n_held += 1
+    ctx.stats["held_cases"] += n_held
+    # REGIME: one large hypergraph and one large complex per run
+    cases += regime_cases(rng, names, quick=ctx.quick)
     return cases
 
 
@@ -1228,18 +1664,36 @@ def run(ctx):
     rng = ctx.rng
     names = layout_functions()
     ctx.extra["layout_functions"] = names
-    ctx.rule = ("networks: 10 hand-picked + fn.gen_hypergraph (1-7 nodes, 0-7 edges of size 1-5; int/str/mixed/negative labels, shuffled; "
-                "explicit edge IDs; multi-edges, singleton edges, isolated nodes), as Hypergraph or as SimplicialComplex (add_simplex); draw "
-                "cases always have an edge with >= 2 nodes.  draw cases: which in draw/draw_nodes/draw_hyperedges|draw_simplices, positions "
-                "= distinct random points of the integer grid [-7,7]^2 (coinciding points only for draw_nodes / barycenters) as array/tuple/list, the pos "
-                "dict listed in shuffled key order in 70%, max_order in {None,0,1,2,3,6}, "
-                "style arguments node_size/node_fc/node_lw/node_ec/dyad_color/dyad_lw/edge_fc/edge_ec each absent or scalar/dict/list/"
-                "array/stat/dict-of-numbers (per-element shapes only where elements exist); per-ID dicts are explicit in the case, in "
-                "shuffled order, for edge arguments of a hypergraph in 40% over all edge IDs; every per-element argument is read back "
-                "(sizes, widths, colours, colour-mapped arrays) per element; ax=None (current axes) in 20% and for every function on every "
-                "hand-picked network; hull=True in 12% (hulls read back); pos=None in 6% (plan checked against the markers).  layout cases: "
-                "every *_layout function of xgi.drawing.layout x option variants by signature, also on networks without edges.  "
-                "evaluations = calls of public functions; non-trivial = distinct (case, result) with an edge of >= 2 nodes and a successful call")
+    ctx.rule = ("networks: 12 hand-picked (two with tuple node labels and tuple edge IDs) + fn.gen_hypergraph (1-7 nodes, 0-7 edges of size 1-5; "
+                "int/str/mixed/negative labels, shuffled; explicit edge IDs; multi-edges, singleton edges, isolated nodes), as Hypergraph or as "
+                "SimplicialComplex (add_simplex); draw cases always have an edge with >= 2 nodes.  ORDINARY draw cases: which in draw/draw_nodes/"
+                "draw_hyperedges|draw_simplices, positions = distinct random points of the integer grid [-7,7]^2 (coinciding points only for "
+                "draw_nodes / barycenters) as array/tuple/list, the pos dict in shuffled key order in 70%, in 15% with 1-4 EXTRA keys that are not "
+                "nodes (a parent's layout), max_order in {None,0,1,2,3,6}; style arguments, each absent in 55%: node_size/node_fc/node_lw: scalar|"
+                "list|array|dict|stat(degree) (node_fc also dict-of-numbers); node_ec: scalar|list ONLY; dyad_color/dyad_lw/edge_fc (hypergraph): "
+                "scalar|list|array|dict|stat (dyad_lw: the stat of the two-node edges; dyad_color/edge_fc: stats over all edges, also dict-of-numbers); "
+                "edge_ec: scalar|list|dict|stat; for a complex the dyad_/edge_ arguments are scalar|list|array only; per-ID dicts are explicit in "
+                "the case, in shuffled order, for edge arguments of a hypergraph in 40% over all edge IDs; every per-element argument except a "
+                "stat-valued edge_ec/node_ec and the dyad_/edge_ sequences of a complex is read back per element; ax=None in 20% and for every "
+                "function on every hand-picked network; hull=True in 12% (hulls read back); pos=None in 6% (plan checked against the markers).  "
+                "DOCUMENTED-SHAPE cases (exactly one such argument per case, rescale_sizes=False; every admissible (argument, shape) pair on four "
+                "hand-picked networks, two random pairs on 33 more): node_size/node_lw/dyad_lw as tuple|range|pandas Series; the five colour "
+                "arguments as tuple|Series of colour names and as the single colour 'none'; draw(node_ec=dict|NodeStat); dyad_lw=EdgeStat of an "
+                "attribute over ALL edges (hypergraph; read back by ID); for a complex edge_fc/dyad_color/dyad_lw as a dict over the complex's "
+                "own simplex IDs (read back by matching the drawn element's positions to the simplex) and edge_fc/dyad_color as EdgeStat of the "
+                "complex (success only); every second complex of this family has string simplex IDs.  SUBCLASS cases: instances of trivial "
+                "subclasses of Hypergraph / SimplicialComplex through the four draw functions, every layout and edge_positions_from_barycenters "
+                "on 6 hand-picked networks.  HELD-OBJECT cases (2 per network on 34 networks): one network object, a first call (draw function "
+                "with pos=None in 60% / explicit pos, or a layout), an edit by public mutators (count-preserving: remove a node and add an edge "
+                "bringing a new node [+ remove an edge and add another]; or ordinary: add / remove a node or edge), then the SAME call and ANOTHER "
+                "call (other function / options) on the same object; each later result must satisfy the predicate that a fresh rebuild of the "
+                "edited network satisfies (class held-object-*).  REGIME cases (predicate only, not sent to the Lean driver): one hypergraph "
+                "and one complex with 72 nodes incl. the labels 2**53 and 2**53+1 and strings, the hypergraph with 135 parallel two-node edges "
+                "between these two labels + 16 other edges: every layout except Kamada-Kawai (quick tier), draw with explicit pos and pos=None, "
+                "draw_hyperedges|draw_simplices, edge positions.  layout cases: every *_layout function of xgi.drawing.layout x option "
+                "variants by signature (seed: int, and np.random.RandomState in 30% of the seeded calls of the three functions whose docstring "
+                "names it + one such call per function on two hand-picked networks), also on networks without edges.  evaluations = calls of "
+                "public functions; non-trivial = distinct (case, result) with an edge of >= 2 nodes and a successful call")
     cases = corpus_cases()
     ctx.stats["corpus_cases"] = len(cases)
     cases += make_cases(ctx, rng, ctx.n(200, 2500), names, draws_per_net=ctx.n(3, 4))
@@ -1269,7 +1723,7 @@ def run(ctx):
     ctx.extra["phase_seconds"]["cases_and_driver"] = round(time.time() - t0, 1)
 
     def search():
-        more = make_cases(ctx, rng, ctx.n(150, 1500), names)
+        more = make_cases(ctx, rng, ctx.n(150, 1500), names, extras=False)
         fs = {str(c.get("f")) for c, _, _ in dis}
         for c in more:
             if fs and c["f"] not in fs:
@@ -1285,15 +1739,21 @@ def run(ctx):
     ctx.extra["phase_seconds"]["search_and_shrink"] = round(time.time() - t0, 1)
     ctx.extra["style_read_back"] = dict(sorted(READ_BACK.items()))   # includes re-evaluations while shrinking
     ctx.assumptions = [
-        "labels int/str (bool/float/numpy-integer IDs outside the model); networks satisfy Net.WF (C01); a SimplicialComplex is closed under "
-        "faces with >= 2 nodes and has no repeated or empty simplex (C03)",
-        "drawing domain: at least one edge with >= 2 nodes; max_order None or >= 0; every node has a position; per-element style "
-        "arguments have one entry per drawn element (per-ID dicts possibly more: one per edge) and are only generated where at least one "
-        "element exists; for a complex only node arguments are per-ID (the drawn edges are an internal hypergraph); rescaled sizes / "
-        "widths are compared with the documented interpolation between the min and max of the values handed over (np.interp), "
-        "colours with matplotlib.colors.to_rgba; a stat-valued edge_ec is not read back",
+        "labels int/str/flat tuples of these (bool/float/numpy-integer IDs outside the model: A7 of review 2 — phantom nodes of the barycenter "
+        "layouts collide with numpy-int labels — is therefore not generated); networks satisfy Net.WF (C01); a SimplicialComplex is closed "
+        "under faces with >= 2 nodes and has no repeated or empty simplex (C03)",
+        "drawing domain: at least one edge with >= 2 nodes; max_order None or >= 0; every node has a position (pos may have MORE keys); "
+        "per-element sequences have one entry per drawn element (per-ID dicts possibly more: one per edge) and are only generated where at "
+        "least one element exists; rescaled sizes / widths are compared with the documented interpolation between the min and max of the "
+        "values handed over (np.interp), colours with matplotlib.colors.to_rgba; a stat-valued edge_ec / node_ec is not read back; the "
+        "documented-shape cases switch rescaling off",
+        "layout options: seed int or RandomState (only where documented: pairwise_spring_layout and random_layout document `int`), k in {0.3, 1}, "
+        "resolution in {0.1, 0.8, 2}, iterations in {1, 5, 80}; the degenerate values k=0 (NaN positions from networkx) and resolution=0 "
+        "(division by zero) of review item A8 are not generated",
         "coordinates on an integer grid so that float arithmetic is exact; finite coordinates of random/spring/Kamada-Kawai/circular/spiral "
         "layouts are observed on the runs only",
+        "held-object cases: the edit scripts use add_node/add_edge/remove_node/remove_edge (complex: add_simplex/remove_simplex_id, remove_node "
+        "of an isolated node only); a script whose result differs from the recorded edited network is skipped (the mutators are C01-C05's subject)",
         "np.argsort is an oracle: the harness passes numpy's permutation of the polygon sizes to the model, which checks that it is an argsort; "
         "polygon vertex order is compared with the exact angular order only when all angles differ",
         "string hashes are randomised per process (./check derives PYTHONHASHSEED from VERIF_SEED): which member of a mixed-label set "
